@@ -488,6 +488,18 @@ func (s *Syncer) runPeer(p *Peer) {
 	}
 	defer done()
 
+	// a peer whose handshake completed after Run closed all peers would never
+	// be closed; close it when the syncer shuts down
+	stop := make(chan struct{})
+	defer close(stop)
+	go func() {
+		select {
+		case <-s.tg.Done():
+			p.Close()
+		case <-stop:
+		}
+	}()
+
 	subnet := s.subnetKey(p.ConnAddr)
 	inflight := make(chan struct{}, s.config.MaxInflightRPCs)
 	for {
